@@ -131,6 +131,11 @@ def dispatch (j : Json) : Except String Res := do
   | "expand" | "apply" | "indent" | "pad" | "wrap" | "dumbwrap" | "snip" | "center"
   | "replacelast" | "setlength" | "scrub" | "squash" | "height" | "unicode" => ansiOp op j
   | "accessor" => accessorOp j
+  | "hextoansi" => hexOp j
+  | "config" => configOp j
+  | "hook" => hookOp j
+  | "paging" => pagingOp j
+  | "splice" => spliceOp j
   | "history" => historyOp j
   | "feed" => feedOp j
   | _ => throw s!"unknown op {op}"
